@@ -617,16 +617,16 @@ def check_C20(tier):
     c = Check("C20", tier, "model_checking")
     t = tier == "thorough"
     consts = lambda edits, seps, perm, stmts=LEX_ALL: {"MaxEdits": edits, "StmtIndexes": set(stmts), "SepChoice": set(seps), "PermuteClauses": perm}
-    runs = [("single", consts(1, range(1, 16), True)),
+    runs = [("single", consts(1, range(1, 23), True)),
             ("perms", consts(4, [], True, {1, 3, 4, 5})),
-            ("pairs", consts(2, [1, 4, 7, 8, 11, 13] if not t else range(1, 16), False, {1, 6, 8, 9, 13} if not t else LEX_ALL))]
+            ("pairs", consts(2, [1, 4, 7, 8, 11, 13, 18, 20] if not t else range(1, 23), False, {1, 6, 8, 9, 13} if not t else LEX_ALL))]
     for name, k in runs:
         r = tlc("MC_Lexical", cfg_text(constants=k, invariants=["LexesAsIntended", "Emit"], view="view"), "lexical-" + name, workers=W, timeout=2400)
         expect_holds(r, "Lexical %s (ideal lexer reads every layout variant as the base token stream)" % name); c.add_tlc(r)
         rep = vh_replay("lexical", r.replay_path, "lexical-" + name)
         c.add_report(rep, reg("parser vs Lexical.tla (layout variants)", "lexical"))
     laws_trace(c, 2 if t else 1, 300 if t else 100)
-    c.rule = ("TLC applies every single edit (case flip of each keyword / function / aggregate / type name, each of 9 separators incl. comments in every gap, leading / trailing separator, "
+    c.rule = ("TLC applies every single edit (case flip of each keyword / function / aggregate / type name, each of 22 separators incl. comments and whitespace beyond ASCII (VT, FF, NBSP, NEL, U+2028, U+3000, U+2003) in every gap, leading / trailing separator, "
               "semicolon), every clause permutation and every pair of edits to 12 base statements covering the grammar, checks with an ideal lexer that the text still reads as the same tokens, "
               "and the real parser must return the same statement (Debug form) as for the base layout. Non-trivial = at least one edit; distinct by text.")
     c.assumptions = ["the Debug form of Statement identifies the statement", "string literal contents are not edited"]
